@@ -456,6 +456,36 @@ bool SPxLPBase<Rational>::readLPF(
    spx_alloc(tmp, buf_size);
    spx_alloc(line, buf_size);
 
+   // release the buffers and the name sets created here on every way out, also when the stream throws
+   struct ReadGuard
+   {
+      char*& buf;
+      char*& tmp;
+      char*& line;
+      NameSet*& cnames;
+      NameSet*& rnames;
+      bool ownCnames;
+      bool ownRnames;
+      ~ReadGuard()
+      {
+         if(ownCnames && cnames != nullptr)
+         {
+            cnames->~NameSet();
+            spx_free(cnames);
+         }
+
+         if(ownRnames && rnames != nullptr)
+         {
+            rnames->~NameSet();
+            spx_free(rnames);
+         }
+
+         spx_free(buf);
+         spx_free(tmp);
+         spx_free(line);
+      }
+   } readGuard{buf, tmp, line, cnames, rnames, p_cnames == nullptr, p_rnames == nullptr};
+
    for(;;)
    {
       buf_pos = 0;
@@ -924,23 +954,9 @@ syntax_error:
                     std::endl;)
    }
    else
-      SPX_MSG_ERROR(std::cerr << "ELPFRD15 Syntax error in line " << lineno << std::endl;)
-
-      if(p_cnames == nullptr)
-      {
-         cnames->~NameSet();
-         spx_free(cnames);
-      }
-
-   if(p_rnames == nullptr)
    {
-      rnames->~NameSet();
-      spx_free(rnames);
+      SPX_MSG_ERROR(std::cerr << "ELPFRD15 Syntax error in line " << lineno << std::endl;)
    }
-
-   spx_free(buf);
-   spx_free(tmp);
-   spx_free(line);
 
    return finished;
 }
